@@ -318,3 +318,55 @@ def row_residuals(A, b, x):
     scale = np.abs(A) @ np.abs(x) + np.abs(b)
     scale[scale == 0] = 1.0
     return np.abs(res) / scale
+
+
+# ----------------------------------------------------------------------------------------
+# complex-capable oracle simulation (C05): the same formulas as np_rate_matrix, any numpy dtype.
+# A complex step h*1j on a parameter gives d(loss)/d(parameter) = Im(loss)/h to round-off: an independent
+# forward-mode differentiation of the SPECIFICATION's own map (no subtraction error, no step-size tuning).
+# ----------------------------------------------------------------------------------------
+def cx_rate_matrix(m, par):
+    n, N = m.ncomps, m.nnodes
+    r, l, ra, cm, gm, em = (np.asarray(par[k], dtype=complex) for k in ("r", "l", "ra", "cm", "gm", "em"))
+    area = 2 * math.pi * r * l
+    cap = cm * area
+    rh = ra * l / (2 * math.pi * r * r)
+    R = np.zeros((N, N), dtype=complex)
+    q = np.zeros(N, dtype=complex)
+    for c in range(n):
+        for j in m.neigh(c):
+            g = 1e7 / (rh[c] + rh[j])
+            R[c, j] += g
+            R[c, c] -= g
+        R[c, c] -= area[c] * gm[c]
+        q[c] = area[c] * em[c]
+    for p in m.parent_branches:
+        node = n + m.bp_rank[p]
+        for k in m.bp_members(p):
+            g = 1e7 / rh[k]
+            R[k, node] += g
+            R[k, k] -= g
+            R[node, k] += g
+            R[node, node] -= g
+    return R, q, cap
+
+
+def cx_simulate(m, par, stim, dt, nsteps, scheme):
+    """Recordings (nsteps+1, n) of the specification's scheme (bwd_euler / crank_nicolson); stim[t] = point currents (nA)
+    acting in step t+1."""
+    n, N = m.ncomps, m.nnodes
+    R, q, cap = cx_rate_matrix(m, par)
+    h = dt if scheme == "bwd_euler" else dt / 2
+    A = np.zeros((N, N), dtype=complex)
+    A[:n] = -h * R[:n]
+    A[:n, :n] += np.diag(cap)
+    A[n:] = R[n:]
+    v = np.asarray(par["v0"], dtype=complex)
+    out = [v]
+    for t in range(nsteps):
+        b = np.zeros(N, dtype=complex)
+        b[:n] = cap * v + h * (q[:n] + 1e5 * np.asarray(stim[t], dtype=complex))
+        x = np.linalg.solve(A, b)[:n]
+        v = x if scheme == "bwd_euler" else 2 * x - v
+        out.append(v)
+    return np.stack(out)
